@@ -69,8 +69,11 @@ func streamFromBucket(bucket, streamInBucket int) int {
 func (s *IDGenerator) GetStream() (int, bool) {
 	// based closely on the java-driver stream ID generator
 	// avoid false sharing subsequent requests.
+	verifYield("get.loadOffset")
 	offset := atomic.LoadUint32(&s.offset)
+	verifYield("get.casOffset")
 	for !atomic.CompareAndSwapUint32(&s.offset, offset, (offset+1)%s.numBuckets) {
+		verifYield("get.reloadOffset")
 		offset = atomic.LoadUint32(&s.offset)
 	}
 	offset = (offset + 1) % s.numBuckets
@@ -78,6 +81,7 @@ func (s *IDGenerator) GetStream() (int, bool) {
 	for i := uint32(0); i < s.numBuckets; i++ {
 		pos := int((i + offset) % s.numBuckets)
 
+		verifYield("get.loadBucket")
 		bucket := atomic.LoadUint64(&s.streams[pos])
 		if bucket == math.MaxUint64 {
 			// all streams in use
@@ -87,10 +91,13 @@ func (s *IDGenerator) GetStream() (int, bool) {
 		for j := 0; j < bucketBits; j++ {
 			mask := uint64(1 << streamOffset(j))
 			for bucket&mask == 0 {
+				verifYield("get.casBucket")
 				if atomic.CompareAndSwapUint64(&s.streams[pos], bucket, bucket|mask) {
+					verifYield("get.addInuse")
 					atomic.AddInt32(&s.inuseStreams, 1)
 					return streamFromBucket(int(pos), j), true
 				}
+				verifYield("get.reloadBucket")
 				bucket = atomic.LoadUint64(&s.streams[pos])
 			}
 		}
@@ -134,6 +141,7 @@ func (s *IDGenerator) String() string {
 
 func (s *IDGenerator) Clear(stream int) (inuse bool) {
 	offset := bucketOffset(stream)
+	verifYield("clear.load")
 	bucket := atomic.LoadUint64(&s.streams[offset])
 
 	mask := uint64(1) << streamOffset(stream)
@@ -142,7 +150,9 @@ func (s *IDGenerator) Clear(stream int) (inuse bool) {
 		return false
 	}
 
+	verifYield("clear.cas")
 	for !atomic.CompareAndSwapUint64(&s.streams[offset], bucket, bucket & ^mask) {
+		verifYield("clear.reload")
 		bucket = atomic.LoadUint64(&s.streams[offset])
 		if bucket&mask != mask {
 			// already cleared
@@ -151,6 +161,7 @@ func (s *IDGenerator) Clear(stream int) (inuse bool) {
 	}
 
 	// TODO: make this account for 0 stream being reserved
+	verifYield("clear.addInuse")
 	if atomic.AddInt32(&s.inuseStreams, -1) < 0 {
 		// TODO(zariel): remove this
 		panic("negative streams inuse")
